@@ -318,11 +318,9 @@ def renameSym (tbl : List (String × String)) (final : List (String × String)) 
   | .var v => match tbl.find? (fun e => e.1 = v) with
     | some e => .var e.2
     | none => .var v
-  | .ter t => match tbl.find? (fun e => e.1 = t) with   -- `cfgobj in new_variables_d` uses Variable.__eq__
-    | some e => .var e.2
-    | none => match final.find? (fun e => e.1 = t) with
-      | some e => .var e.2
-      | none => .ter t
+  | .ter t => match final.find? (fun e => e.1 = t) with   -- a terminal is never a key of `new_variables_d`
+    | some e => .var e.2                                  -- (after the repair of `Variable.__eq__`)
+    | none => .ter t
 
 def lookupName (tbl : List (String × String)) (v : String) : String :=
   ((tbl.find? fun e => e.1 = v).map (·.2)).getD v
